@@ -1138,3 +1138,116 @@ Proof.
   destruct members as [|m ms]; [simpl in *; lia|].
   pose proof (per_sample_cap_total k (length (m :: ms)) ltac:(simpl; lia) Hf). fold c in H. lia.
 Qed.
+
+(* ---------------------------------------------------------------------------------------------- *)
+(* 10. a legal oracle exists for every input: pop the undecided reads in index order               *)
+
+Definition canon_bo (reads : list read) (k : nat) (bridging : bool) (s : st) : list nat :=
+  let (ss, _) := slice_run reads k (SliceSt (cov s) [] [] []) (und s) in
+  if bridging then set_diff (set_diff (und s) (s_in ss)) (s_viol ss) else [].
+
+Lemma bridge_step_not_illegal reads k bs ri : bridge_step reads k bs ri <> inr IllegalOrder.
+Proof.
+  unfold bridge_step. destruct (find_blocks (b_cf bs) (get_read reads ri) []) as [[cf1 bl] | e]; [|discriminate].
+  destruct (k <=? _); [discriminate|]. destruct (length bl <? 2); [discriminate|].
+  destruct (merge_read cf1 (get_read reads ri)); discriminate.
+Qed.
+
+Lemma bridge_run_not_illegal reads k : forall order bs, bridge_run reads k bs order <> inr IllegalOrder.
+Proof.
+  induction order as [|ri rest IH]; intro bs; simpl; [discriminate|].
+  pose proof (bridge_step_not_illegal reads k bs ri) as Hs.
+  destruct (bridge_step reads k bs ri) as [[bs1 d] | e]; [|intro H; apply Hs; congruence].
+  pose proof (IH bs1) as Hr. destruct (bridge_run reads k bs1 rest) as [[bs2 ds] | e]; [discriminate | exact Hr].
+Qed.
+
+Lemma iteration_canon_legal reads n k bridging s : NoDup (und s) ->
+  iteration reads n k bridging s (und s) (canon_bo reads k bridging s) <> inr IllegalOrder.
+Proof.
+  intro ND. unfold iteration, canon_bo. rewrite (is_perm_refl _ ND). cbn [negb].
+  destruct (slice_run reads k (SliceSt (cov s) [] [] []) (und s)) as [ss sdec].
+  destruct (merge_reads reads (uf_init (seq 0 n)) (s_in ss)) as [cf | e]; [|discriminate].
+  destruct bridging.
+  - cbn [und]. rewrite is_perm_refl by (apply set_diff_NoDup, set_diff_NoDup; exact ND). cbn [negb].
+    pose proof (bridge_run_not_illegal reads k
+      (set_diff (set_diff (und s) (s_in ss)) (s_viol ss))
+      (BridgeSt (St (s_cov ss) (set_union (sel s) (s_in ss)) (set_diff (set_diff (und s) (s_in ss)) (s_viol ss))) cf)) as Hb.
+    destruct (bridge_run _ _ _ _) as [[bs bdec] | e]; [discriminate | intro H; apply Hb; congruence].
+  - discriminate.
+Qed.
+
+Section Exists.
+Variables (reads : list read) (n k : nat).
+Hypothesis Hwf : wf_reads n reads = true.
+Variable D : nat -> Prop.
+Hypothesis HD : forall r, D r -> r < length reads.
+
+Lemma helper_exists x bridging : forall fuel s,
+  GInv reads n k D x (cov s) (sel s) (und s) -> length (und s) <= fuel ->
+  exists o s2 items, helper reads n k bridging o s = inl (s2, items, []) /\ und s2 = [] /\
+    GInv reads n k D x (cov s2) (sel s2) (und s2).
+Proof.
+  induction fuel as [|fuel IH]; intros s G Hlen.
+  - exists [], s, []. destruct (und s) eqn:Eu; simpl in Hlen; [|lia].
+    split; [simpl; rewrite Eu; reflexivity|]. split; [exact Eu | rewrite <- Eu; exact G].
+  - destruct (und s) as [|u us] eqn:Eu.
+    + exists [], s, []. split; [simpl; rewrite Eu; reflexivity|]. split; [exact Eu | rewrite <- Eu; exact G].
+    + rewrite <- Eu in G.
+      pose proof (gi_nd_und _ _ _ _ _ _ _ _ G) as ND.
+      destruct (iteration_ok reads n k Hwf D HD x bridging s (und s) (canon_bo reads k bridging s) G)
+        as [E | (s1 & item & E & G1 & Hlt & _)].
+      * exfalso. exact (iteration_canon_legal reads n k bridging s ND E).
+      * assert (Hne : und s <> []) by (rewrite Eu; congruence).
+        specialize (Hlt Hne). rewrite Eu in Hlen, Hlt. simpl in Hlen, Hlt.
+        destruct (IH s1 G1 ltac:(lia)) as (o' & s2 & items & E2 & Hu2 & G2).
+        exists ((und s, canon_bo reads k bridging s) :: o'), s2, (item :: items).
+        split; [|split; assumption].
+        cbn [helper]. rewrite Eu. rewrite <- Eu. rewrite E, E2. reflexivity.
+Qed.
+
+Lemma helper_app bridging : forall o1 o2 s s1 t1,
+  helper reads n k bridging o1 s = inl (s1, t1, []) -> und s1 = [] ->
+  helper reads n k bridging (o1 ++ o2) s = inl (s1, t1, o2).
+Proof.
+  induction o1 as [|[so bo] o1 IH]; intros o2 s s1 t1 H Hu.
+  - simpl in H. assert (Es : s1 = s /\ t1 = []) by (destruct (und s); injection H as <- <-; split; reflexivity).
+    destruct Es as [-> ->]. simpl. destruct o2 as [|[so bo] o2]; cbn [helper]; rewrite Hu; reflexivity.
+  - cbn [helper app] in *. destruct (und s) as [|u us].
+    + injection H as <- <- H. discriminate.
+    + destruct (iteration reads n k bridging s so bo) as [[s' item] | e]; [|discriminate].
+      destruct (helper reads n k bridging o1 s') as [[[s2 items] rest] | e] eqn:E2; [|discriminate].
+      injection H as <- <- ->. rewrite (IH o2 s' s2 items E2 Hu). reflexivity.
+Qed.
+
+End Exists.
+
+Theorem legal_oracle_exists : forall rule reads pref n k bridging,
+  wf_reads n reads = true ->
+  exists o r, readselection rule reads pref n k bridging o = inl r /\ r_complete r = true.
+Proof.
+  intros rule reads pref n k bridging Hwf. unfold readselection.
+  rewrite (wf_reads_len2 n reads Hwf). cbn [negb]. fold (preferred_of reads pref).
+  set (D1 := fun r => In r (preferred_of reads pref)).
+  set (D2 := fun r => r < length reads).
+  assert (HD1 : forall q, D1 q -> q < length reads) by (intros q Hq; apply preferred_bound with pref; exact Hq).
+  assert (HD2 : forall q, D2 q -> q < length reads) by (intros q Hq; exact Hq).
+  destruct (is_nil (preferred_of reads pref)) eqn:Enil.
+  - assert (G0 : GInv reads n k D2 true (cov_init n) [] (seq 0 (length reads))).
+    { apply GInv_start; [apply seq_NoDup|]. intro r. unfold D2. rewrite in_seq. lia. }
+    destruct (helper_exists reads n k Hwf D2 HD2 true bridging _ (St (cov_init n) [] (seq 0 (length reads))) G0 (le_n _))
+      as (o & s2 & t2 & E & Hu & _).
+    exists o. rewrite E. eexists. split; [reflexivity|]. cbn [r_complete]. rewrite Hu. reflexivity.
+  - assert (G0 : GInv reads n k D1 true (cov_init n) [] (preferred_of reads pref)).
+    { apply GInv_start; [apply preferred_NoDup|]. intro r. reflexivity. }
+    destruct (helper_exists reads n k Hwf D1 HD1 true bridging _ (St (cov_init n) [] (preferred_of reads pref)) G0 (le_n _))
+      as (o1 & s1 & t1 & E1 & Hu1 & G1).
+    set (x2 := match rule with PrefRepaired => true | PrefCurrent => false end).
+    assert (G1' : GInv reads n k D2 x2 (cov s1) (sel s1)
+                     (second_phase_undecided rule (seq 0 (length reads)) (preferred_of reads pref))).
+    { apply GInv_second_phase. rewrite <- Hu1. exact G1. }
+    destruct (helper_exists reads n k Hwf D2 HD2 x2 bridging _
+                (St (cov s1) (sel s1) (second_phase_undecided rule (seq 0 (length reads)) (preferred_of reads pref))) G1' (le_n _))
+      as (o2 & s2 & t2 & E2 & Hu2 & _).
+    exists (o1 ++ o2). rewrite (helper_app reads n k bridging o1 o2 _ s1 t1 E1 Hu1).
+    rewrite Hu1. cbn [is_nil negb]. rewrite E2. eexists. split; [reflexivity|]. cbn [r_complete]. rewrite Hu2. reflexivity.
+Qed.
